@@ -46,6 +46,8 @@ def plan(tier, seed):
     nshard = 2 if tier == 'quick' else 16
     for i in range(nshard):
         shards.append(dict(kind='walk', seed=seed * 1000 + i, n=n // nshard, length=length, time_opts=CFGS['thorough'][i % 3], defer=bool(i % 2)))
+        shards.append(dict(kind='walk', seed=seed * 1000 + 500 + i, n=n // nshard, length=length, time_opts=CFGS['thorough'][i % 3], defer=bool(i % 2),
+                           fuzz=150 if tier == 'quick' else 1500))
     return shards
 
 
@@ -114,8 +116,12 @@ def run_shard(sh):
             res['samples'] = [dict(cfg=sh['time_opts'], events=list(s)) for s in list(ex.seen.values())[-2:]]
     else:
         rng = random.Random(sh['seed'])
+        alpha = S.ALPHABET_C01
+        if sh.get('fuzz'):
+            # hostile well-framed messages (mutated unit-test corpus) among the peer's messages
+            alpha = ['OPEN', 'KA', 'OPEN_h9', 'NOTI_CEASE', 'BADLEN', 'UPD1'] + S.fuzz_alphabet(rng, sh['fuzz'])
         for i in range(sh['n']):
-            r = S.random_walk(cfg, [StopMonitor], S.ALPHABET_C01, rng, sh['length'], multi=True,
+            r = S.random_walk(cfg, [StopMonitor], alpha, rng, sh['length'], multi=True,
                               weights={'TICK': 6, 'ACCEPT': 3, 'REFUSE': 2, 'STOP': 1.5, 'START': 1.0})
             if not r.monitors[0].stopped:
                 r.step('STOP')
@@ -147,7 +153,7 @@ def floors(m, tier):
 
 
 def replay(rep):
-    r = S.run_seq(rep['cfg'], rep['events'], [StopMonitor])
+    r = S.run_seq(rep['cfg'], rep['events'], [StopMonitor], fuzz=rep.get('fuzz'))
     stats = dict(stopped_states=0, starts_continued=0, recoveries=0)
     if 'ADV300' not in rep['events']:
         continuation(r, stats)
